@@ -113,6 +113,14 @@ CHECKS = {
         "The blank standing in for a cut wide character and the ellipsis may carry None or the adjoining character's attribute (the statement does not decide it). Colour rounding is C18's subject (slack accepted).",
         "DESIGN.md §3 C17, §8",
     ),
+    "C10": (
+        "exploration",
+        "reference-model monitor over key/click histories: every operation is applied to the real Edit / IntEdit / IntegerEdit / FloatEdit and to an independent reference editor (vmon/models/editor_ref.py); text, offset, return value, signal log, character-boundary and cursor-cell clauses compared after every operation",
+        "Sessions of ~30 keys / clicks / resizes / renders over captions and texts with wide, combining, newline characters, str and bytes in three encodings, widths 1-20, wrap space/any/clip, alignments, multiline / allow_tab / mask, numeric variants "
+        "with their option ranges; a systematic sweep of small states plus random sessions. Display rows for up/down/home/end/click come from a fresh twin Edit built from the model state, interpreted by the model's own code.",
+        "Return value of a used key that cannot act, exact tab width and the preferred column after a click are not judged. Ellipsis wrap, highlight and custom layouts are not exercised.",
+        "DESIGN.md §3 C10, §8",
+    ),
 }
 
 NA_REASON = "check not built yet in this round (see DESIGN.md §6 build order); no claim is made"
